@@ -492,7 +492,7 @@ def peEnter (w : World) (p : Proc) (b : BId) : World :=
 def peOpen (w : World) (p : Proc) (b : BId) (e : EId) : World :=
   let hs := applicable w b e
   let w := w.modEv e fun E => { E with results := E.results ++ hs.map fun k => { hid := k, bus := b } }
-  let w := w.setAct p (some { bus := b, ev := e, todo := hs, running := [] })
+  let w := w.setAct p (some { bus := b, ev := e, todo := hs, running := [], sel := hs })
   if hs.isEmpty then markComplete w e else w
 
 /-- normal end of `process_event` (without the executor's release): completion marking, parent walk, eviction,
